@@ -216,6 +216,21 @@ def buildChain (g : Guards) : Nat → List Cert → Cert → List Cert → Optio
     | none => some (done ++ [child])
     | some cand => buildChain g fuel (done ++ [child]) cand pool
 
+/-- a weaker guard one might think sufficient: skip only the child itself and the certificate it was reached from
+(`done.getLast?`), instead of everything already in the chain -/
+def nextIssuerPrev (done : List Cert) (child : Cert) (pool : List Cert) : Option Cert :=
+  pool.find? fun cand =>
+    !(cand.cid == child.cid) &&
+      !(match done.getLast? with | some p => p.cid == cand.cid | none => false) && isIssuerOf child cand
+
+/-- `buildChain` with that weaker guard -/
+def buildChainPrev : Nat → List Cert → Cert → List Cert → Option (List Cert)
+  | 0, _, _, _ => none
+  | fuel + 1, done, child, pool =>
+    match nextIssuerPrev done child pool with
+    | none => some (done ++ [child])
+    | some cand => buildChainPrev fuel (done ++ [child]) cand pool
+
 /-- `FindChain`: the chain starting at the first certificate of the file that certifies the key. The Go recursion
 is given one call more than there are certificates; if that does not suffice it never ends (`fatal`). -/
 def findChain (g : Guards) (certs : List Cert) (k : Key) : Out (List Cert) :=
@@ -226,10 +241,18 @@ def findChain (g : Guards) (certs : List Cert) (k : Key) : Out (List Cert) :=
     | some chain => .ok chain
     | none => .fatal
 
+/-- two certificates for the same subject and key (generations of one certificate); `x509` path building treats
+them as the same entity and never puts both on one path -/
+def sameIdentity (a b : Cert) : Bool := a.subject == b.subject && a.key == b.key
+
 /-- `x509` path validation of a chain whose last element is the trust anchor, as far as the check's certificates
-exercise it: every certificate within its validity period, every issuer a CA -/
+exercise it: every certificate within its validity period, every issuer a CA, and the trust anchor not just another
+generation of the leaf itself (a path from the leaf to it would contain the same entity twice) -/
 def chainValid (chain : List Cert) : Bool :=
-  chain.all (·.validNow) && chain.tail.all (·.isCA)
+  chain.all (·.validNow) && chain.tail.all (·.isCA) &&
+    match chain with
+    | leaf :: _ :: _ => !(sameIdentity leaf (chain.getLastD leaf))
+    | _ => true
 
 /-- `generateKeyID` -/
 def genKid (chain : List Cert) (k : Key) : String :=
